@@ -277,7 +277,11 @@ def matmul(
         rhs_type = Frame
 
     if rhs_type == np.ndarray and lhs_type == np.ndarray:
-        return np.matmul(lhs, rhs)
+        # (the labels of an Index with an array)
+        post = np.matmul(lhs, rhs)
+        if post.__class__ is np.ndarray:
+            post.flags.writeable = False
+        return post
 
 
     own_index = True
